@@ -52,9 +52,12 @@ CHECKS = {
              "the next, that no marker and no ciphertext shows up on two links, and that under in-flight byte flips (every "
              "position in sweep cases), flag flips, circuit-id rewrites, cross-circuit splices, injected and plaintext-claiming "
              "cells nothing but genuinely sent payloads is ever delivered at the exit or the originator, from the right exit, "
-             "attributed to the right origin and circuit. Seeded sampling of sizes, schedules and fault lists.",
-        note="Trusts ChaCha20-Poly1305 in ipv8_rust_tunnels. Hidden-service e2e circuits and the native Rust endpoint are not "
-             "covered. Loss is not a violation: delivery is demanded only on FIFO fault-free links."),
+             "attributed to the right origin and circuit. A second scenario builds a hidden-service circuit (downloader, "
+             "introduction point, rendezvous point, seeder) with the real HiddenTunnelCommunity and sends both ways (also from "
+             "inside the ready callback). A 'who can read' oracle peels every cell with every session key its RECEIVER holds: "
+             "no relay / rendezvous point may reach the payload. Seeded sampling of sizes, schedules and fault lists.",
+        note="Trusts ChaCha20-Poly1305 in ipv8_rust_tunnels. The native Rust endpoint is not covered; in the hidden-service "
+             "scenario the DHT provider is a stub. Loss is not a violation: delivery is demanded only on FIFO fault-free links."),
     "C05": dict(
         level="exploration", design="DESIGN.md 4/C05",
         technique=TECH + ": concurrent circuits over a small shared relay pool on SimNet, real adversary node issuing forged "
